@@ -58,6 +58,47 @@ def all_subterms(n: Node) -> List[Node]:
     return out
 
 
+def scoped_subterms(n: Node, elements: Callable[[Node, dict], Optional[list]], extra: Optional[dict] = None, out=None, depth: int = 0):
+    """Sub-expressions in post-order together with the extra bindings that close them.
+
+    Macro bodies are entered with the iteration variable bound to concrete elements of the
+    receiver (`elements(receiver_node, extra)` -> list of values, or None when unknown), so a
+    fault inside a macro body can be attributed to the construct that causes it."""
+    if out is None:
+        out = []
+    extra = extra or {}
+    if n.k == "macro":
+        scoped_subterms(n.a[1], elements, extra, out, depth)
+        if depth < 3:
+            try:
+                elems = elements(n.a[1], extra)
+            except Exception:
+                elems = None
+            for e in (elems or [])[:2]:
+                inner = dict(extra)
+                inner[n.a[2]] = e
+                scoped_subterms(n.a[3], elements, inner, out, depth + 1)
+    else:
+        for y in operands(n):
+            scoped_subterms(y, elements, extra, out, depth)
+    out.append((n, extra))
+    return out
+
+
+def localize_scoped(n: Node, fails: Callable[[Node, dict], bool], elements, limit: int = 80):
+    """Like localize(), but looks inside macro bodies. Returns (node, extra bindings)."""
+    subs = scoped_subterms(n, elements)
+    if len(subs) > limit:
+        subs = subs[-limit:]
+    for s, extra in subs[:-1]:
+        try:
+            if fails(s, extra):
+                return s, extra
+        except Exception:
+            continue
+    return n, {}
+
+
 def localize(n: Node, fails: Callable[[Node], bool], limit: int = 60, closed: bool = True) -> Node:
     subs = closed_subterms(n) if closed else all_subterms(n)
     if len(subs) > limit:
